@@ -185,7 +185,9 @@ class Prop(BaseProp):
             else:
                 res.violate("variant-run-failed:cwd", str(o.exc)[:200], wit)
             # (c) moved to another absolute location with the same base name
-            loc2 = os.path.join(sb, "Q_moved", "deeper", "place", "proj")   # no component that a generated pattern could match
+            # (no component that a generated pattern could match; components named like the directories build systems and
+            #  package managers create: where the tree is checked out is no input of the run)
+            loc2 = os.path.join(sb, "Q_moved", "build", "_deps", "x-src", "CMakeFiles", "node_modules", ".cache", "vendor", "proj")
             shutil.copytree(loc1, loc2)
             o = runner.run_main([target(loc2), "-o", out_dir("moved")] + flags, cwd=home, home=home)
             if o.ok:
@@ -256,6 +258,34 @@ class Prop(BaseProp):
                 compare("extra-file-alone-vs-in-larger-run", {k: full.get(k) for k in alone}, alone)
             else:
                 res.violate("variant-run-failed:multi", str(o.exc)[:200], wit)
+            # (f2) one invocation documents the tree and then, as a further lone input, a file that the tree already contains:
+            #      the page of the lone input is the page of that file documented alone, the tree's pages are unchanged
+            if not single:
+                tops = {os.path.basename(k)[:-4] for k in ref if os.sep not in k}
+                nested = [f_ for f_ in sorted(tree.files) if os.path.dirname(f_) and f_.endswith(".cmake") and tree.files[f_]
+                          and os.path.basename(f_)[:-6] not in tops and os.path.basename(f_)[:-6] not in ("index", "")]
+                if nested:
+                    f_ = rng.choice(nested)
+                    stem_ = os.path.basename(f_)[:-6]
+                    o = runner.run_main([loc1, os.path.join(loc1, f_), "-o", out_dir("twice")] + flags, cwd=sb, home=home)
+                    # (the file on its own is documented by a fresh interpreter: nothing an earlier run left behind in this
+                    #  process can have a say in it)
+                    rc1, _, se1 = runner.run_cli([os.path.join(loc1, f_), "-o", out_dir("lone")] + flags, cwd=sb, home=home,
+                                                 env_extra={"PYTHONHASHSEED": "0"})
+                    res.count("fresh_interpreter_runs")
+
+                    class o1:
+                        ok, exc = rc1 == 0, se1[-200:]
+                    res.count("history_runs")
+                    if o.ok and o1.ok:
+                        got = read_tree(out_dir("twice"))
+                        lone = read_tree(out_dir("lone"))
+                        if lone:          # (nothing is written when a pattern excludes the file)
+                            page = got.pop(stem_ + ".rst", None)
+                            compare("own-file-again-as-lone-input", {stem_ + ".rst": page}, lone)
+                        compare("tree-before-own-file-as-lone-input", got, ref)
+                    else:
+                        res.violate("variant-run-failed:twice", str((o.exc, o1.exc))[:200], wit)
             # (h) re-run into an existing output directory: an earlier run documented a longer revision of the same files
             #     (and a file that no longer exists is NOT expected to vanish -- only the files of this run are compared)
             loc4 = os.path.join(sb, "fourth", "proj")
